@@ -1,5 +1,5 @@
 """Mapping property -> rules, with the explanation that goes into the evidence."""
-from .rules import tree_rules, order_rules, opt_rules
+from .rules import tree_rules, order_rules, opt_rules, gram_rules
 
 RULES = {
     'R-LINK': tree_rules.r_link,
@@ -14,6 +14,15 @@ RULES = {
     'R-OPTKEY': opt_rules.r_optkey,
     'DECOR': opt_rules.r_decor,
     'R-SIBLING': opt_rules.r_sibling,
+    'R-ACCUM': gram_rules.r_accum,
+    'R-ARITY': gram_rules.r_arity,
+    'R-ARGPOS': gram_rules.r_argpos,
+    'R-INVERSEMAP': gram_rules.r_inversemap,
+    'R-MUSTUSE': gram_rules.r_mustuse,
+    'R-ENC': gram_rules.r_enc,
+    'R-IDCOUNTER': gram_rules.r_idcounter,
+    'R-SORTEDPOS': gram_rules.r_sortedpos,
+    'R-DISCONT': gram_rules.r_discont,
 }
 
 # minimum number of instances per rule, confirmed by hand on the tree the checker was built for
